@@ -9,6 +9,7 @@ package scheduler
 
 import (
 	"fmt"
+	"net"
 	"os"
 	"path/filepath"
 	"runtime"
@@ -39,12 +40,12 @@ import (
 func TestVerifC16(t *testing.T) { hlib.MainEnv("C16", c16driver) }
 
 const (
-	c16NP    = 12 // peers 0..11 (each backed by a conn.FakePeer)
-	c16NH    = 4  // torrents 0,1 leeching; 2 complete; 3 unknown to the scheduler
-	c16NK    = 4  // connections per (hash, peer): 0,1 open; 2 closed; 3 open, used by the drain probes
-	c16Self  = 99 // canonical id of the local peer
-	c16NS    = "verif-c16"
-	c16Unk   = 9999
+	c16NP   = 12 // peers 0..11 (each backed by a conn.FakePeer)
+	c16NH   = 4  // torrents 0,1 leeching; 2 complete; 3 unknown to the scheduler
+	c16NK   = 4  // connections per (hash, peer): 0,1 open; 2 closed; 3 open, used by the drain probes
+	c16Self = 99 // canonical id of the local peer
+	c16NS   = "verif-c16"
+	c16Unk  = 9999
 )
 
 // ---- op encoding
@@ -61,6 +62,7 @@ const (
 	kEvFailedOut
 	kEvFailedIn
 	kEvComplete
+	kEvIncoming
 	kQActive
 	kQSaturated
 	kQBlacklisted
@@ -68,7 +70,7 @@ const (
 )
 
 var c16names = [...]string{"AddPending", "DeletePending", "MoveToActive", "DeleteActive", "Blacklist", "ClearBlacklist",
-	"Tick", "Announce", "EvConnClosed", "EvFailedOut", "EvFailedIn", "EvComplete", "QActive", "QSaturated", "QBlacklisted", "QSnapshot"}
+	"Tick", "Announce", "EvConnClosed", "EvFailedOut", "EvFailedIn", "EvComplete", "EvIncoming", "QActive", "QSaturated", "QBlacklisted", "QSnapshot"}
 
 type c16op struct {
 	k     int
@@ -98,8 +100,8 @@ type c16clock struct {
 	now time.Time
 }
 
-func (c *c16clock) Now() time.Time { c.mu.Lock(); defer c.mu.Unlock(); return c.now }
-func (c *c16clock) set(t time.Time) { c.mu.Lock(); c.now = t; c.mu.Unlock() }
+func (c *c16clock) Now() time.Time      { c.mu.Lock(); defer c.mu.Unlock(); return c.now }
+func (c *c16clock) set(t time.Time)     { c.mu.Lock(); c.now = t; c.mu.Unlock() }
 func (c *c16clock) add(d time.Duration) { c.mu.Lock(); c.now = c.now.Add(d); c.mu.Unlock() }
 
 type c16producer struct{}
@@ -134,7 +136,9 @@ func (l *c16loop) take() []event {
 	return r
 }
 
-type c16mic struct{ mis map[core.Digest]*core.MetaInfo }
+type c16mic struct {
+	mis map[core.Digest]*core.MetaInfo
+}
 
 func (m c16mic) Download(ns string, d core.Digest) (*core.MetaInfo, error) {
 	if mi, ok := m.mis[d]; ok {
@@ -158,6 +162,8 @@ type c16env struct {
 	loop     *c16loop
 	controls map[core.InfoHash]*torrentControl
 	deadPort int
+	remoteHS [c16NP]*conn.Handshaker // handshakers speaking as peer p
+	infos    [c16NH]*storage.TorrentInfo
 }
 
 func c16setup(tmp string) *c16env {
@@ -225,8 +231,13 @@ func c16setup(tmp string) *c16env {
 		must(err)
 		e.peerIDs[p] = fp.PeerID()
 		e.peerIdx[fp.PeerID()] = p
+		rh, err := conn.NewHandshaker(conn.Config{SenderBufferSize: 1, ReceiverBufferSize: 1}, tally.NoopScope, e.clk,
+			c16producer{}, fp.PeerID(), c16connEvents{}, nop)
+		must(err)
+		e.remoteHS[p] = rh
 		for h := 0; h < c16NH; h++ {
 			info := storage.NewTorrentInfo(blobs[h].MetaInfo, bitset.New(uint(blobs[h].MetaInfo.NumPieces())))
+			e.infos[h] = info
 			for k := 0; k < c16NK; k++ {
 				r, err := hs.Initialize(fp.PeerID(), false, fp.Addr(), info, nil, c16NS)
 				must(err)
@@ -406,6 +417,18 @@ func c16run(e *c16env, cfg c16cfg, ops []c16op, sched bool) c16result {
 			}
 			e.loop.take()
 			add(fmt.Sprintf("EvComplete %d", o.h), "OUnit")
+		case kEvIncoming:
+			// a real incoming handshake from peer p announcing the neighbours nbrs, accepted by the
+			// scheduler's own handshaker, then incomingHandshakeEvent
+			r := c16incoming(e, st, o, pid)
+			if r == "" {
+				res.incon = true
+				r = "AlreadyPending"
+			}
+			if r == "AddOk" {
+				res.changes++
+			}
+			add(fmt.Sprintf("EvIncoming %d %d %s", o.p, o.h, hlib.Ns(o.nbrs)), "OAdd "+r)
 		case kQActive:
 			var ids []int
 			for _, c := range cs.ActiveConns() {
@@ -450,6 +473,70 @@ func c16run(e *c16env, cfg c16cfg, ops []c16op, sched bool) c16result {
 	return res
 }
 
+// c16incoming performs a real handshake opened by peer o.p (its neighbours = o.nbrs) and applies
+// incomingHandshakeEvent. The pending connection was accepted iff the scheduler went on to
+// establish it (incomingConnEvent, or failedIncomingHandshakeEvent when the torrent is unknown).
+func c16incoming(e *c16env, st *state, o c16op, pid func(int) core.PeerID) string {
+	ln, err := net.Listen("tcp", "127.0.0.1:0")
+	if err != nil {
+		return ""
+	}
+	base := runtime.NumGoroutine()
+	rb := conn.RemoteBitfields{}
+	for _, x := range o.nbrs {
+		rb[pid(x)] = bitset.New(e.infos[o.h].Bitfield().Len())
+	}
+	resc := make(chan *conn.Conn, 1)
+	go func() {
+		r, err := e.remoteHS[o.p].Initialize(e.selfID, false, ln.Addr().String(), e.infos[o.h], rb, c16NS)
+		if err != nil {
+			resc <- nil
+			return
+		}
+		resc <- r.Conn
+	}()
+	nc, err := ln.Accept()
+	ln.Close()
+	if err != nil {
+		return ""
+	}
+	pc, err := e.sched.handshaker.Accept(nc)
+	if err != nil {
+		nc.Close()
+		<-resc
+		return ""
+	}
+	e.loop.take()
+	incomingHandshakeEvent{pc}.apply(st)
+	var rc *conn.Conn
+	select {
+	case rc = <-resc:
+	case <-time.After(10 * time.Second):
+		return ""
+	}
+	if !c16quiesce(base) {
+		return ""
+	}
+	res := "AlreadyPending" // refused (reason not observable here)
+	for _, ev := range e.loop.take() {
+		switch v := ev.(type) {
+		case incomingConnEvent:
+			res = "AddOk"
+			v.c.Close()
+		case failedIncomingHandshakeEvent:
+			res = "AddOk"
+		}
+	}
+	if rc != nil {
+		rc.Close()
+	}
+	if !c16quiesce(base) {
+		return ""
+	}
+	e.loop.take()
+	return res
+}
+
 func c16peer(e *c16env, id core.PeerID) int {
 	if p, ok := e.peerIdx[id]; ok {
 		return p
@@ -482,8 +569,8 @@ func c16drain(ops []c16op, np, nh int) []c16op {
 
 // ---- generators
 type c16shadow struct {
-	st   map[[2]int]int // (h,p) -> 0 absent, 1 pending, 2+slot active
-	bl   map[[2]int]bool
+	st map[[2]int]int // (h,p) -> 0 absent, 1 pending, 2+slot active
+	bl map[[2]int]bool
 }
 
 func c16gen(r *hlib.Rng, np, nh, n int, sched bool, cfg c16cfg) []c16op {
@@ -513,8 +600,43 @@ func c16gen(r *hlib.Rng, np, nh, n int, sched bool, cfg c16cfg) []c16op {
 		}
 		return ks[r.Intn(len(ks))], true
 	}
+	announce := func(h int) {
+		var ps []int
+		for i, m := 0, r.Range(1, np+2); i < m; i++ {
+			if r.Chance(10) {
+				ps = append(ps, c16Self)
+			} else {
+				ps = append(ps, r.Intn(np))
+			}
+		}
+		hh := h
+		if r.Chance(75) {
+			hh = r.Intn(2) // mostly a leeching torrent
+		}
+		// mostly include a peer that was blacklisted for this torrent (maybe expired by now)
+		var bls []int
+		for q := 0; q < np; q++ {
+			if sh.bl[[2]int{hh, q}] {
+				bls = append(bls, q)
+			}
+		}
+		if len(bls) > 0 && r.Chance(70) {
+			at := r.Intn(len(ps) + 1)
+			ps = append(ps[:at], append([]int{bls[r.Intn(len(bls))]}, ps[at:]...)...)
+		}
+		ops = append(ops, c16op{k: kAnnounce, h: hh, peers: ps})
+		for _, q := range ps {
+			if q != c16Self && sh.st[[2]int{hh, q}] == 0 {
+				sh.st[[2]int{hh, q}] = 1
+			}
+		}
+	}
 	for len(ops) < n {
 		h, p := r.Intn(nh), r.Intn(np)
+		if sched && r.Chance(8) {
+			announce(h)
+			continue
+		}
 		x := r.Intn(100)
 		switch {
 		case x < 22: // AddPending, sometimes with neighbours
@@ -524,7 +646,20 @@ func c16gen(r *hlib.Rng, np, nh, n int, sched bool, cfg c16cfg) []c16op {
 					nb = append(nb, r.Intn(np))
 				}
 			}
-			ops = append(ops, c16op{k: kAdd, p: p, h: h, nbrs: nb})
+			if sched && r.Chance(35) { // the same through a real incoming handshake (neighbours are a set)
+				seen := map[int]bool{}
+				var set []int
+				for _, x := range nb {
+					if !seen[x] {
+						seen[x] = true
+						set = append(set, x)
+					}
+				}
+				sort.Ints(set)
+				ops = append(ops, c16op{k: kEvIncoming, p: p, h: h, nbrs: set})
+			} else {
+				ops = append(ops, c16op{k: kAdd, p: p, h: h, nbrs: nb})
+			}
 			if sh.st[[2]int{h, p}] == 0 {
 				sh.st[[2]int{h, p}] = 1 // optimistic; the shadow only steers the generator
 			}
@@ -552,6 +687,9 @@ func c16gen(r *hlib.Rng, np, nh, n int, sched bool, cfg c16cfg) []c16op {
 				kind = kEvClosed
 			}
 			ops = append(ops, c16op{k: kind, c: slot, p: k[1], h: k[0]})
+			if kind == kEvClosed {
+				sh.bl[k] = true
+			}
 			if sh.st[k] == 2+slot {
 				sh.st[k] = 0
 			}
@@ -565,11 +703,15 @@ func c16gen(r *hlib.Rng, np, nh, n int, sched bool, cfg c16cfg) []c16op {
 				kind = []int{kEvFailedOut, kEvFailedIn}[r.Intn(2)]
 			}
 			ops = append(ops, c16op{k: kind, p: k[1], h: k[0]})
+			if kind == kEvFailedOut {
+				sh.bl[k] = true
+			}
 			if sh.st[k] == 1 {
 				sh.st[k] = 0
 			}
 		case x < 68:
 			ops = append(ops, c16op{k: kBlacklist, p: p, h: h})
+			sh.bl[[2]int{h, p}] = true
 		case x < 71:
 			kind := kClearBl
 			if sched && h < 3 && r.Chance(50) {
@@ -591,24 +733,7 @@ func c16gen(r *hlib.Rng, np, nh, n int, sched bool, cfg c16cfg) []c16op {
 				ops = append(ops, c16op{k: kQBlacklisted, p: p, h: h})
 				continue
 			}
-			var ps []int
-			for i, m := 0, r.Range(1, np+2); i < m; i++ {
-				if r.Chance(10) {
-					ps = append(ps, c16Self)
-				} else {
-					ps = append(ps, r.Intn(np))
-				}
-			}
-			hh := h
-			if r.Chance(75) {
-				hh = r.Intn(2) // mostly a leeching torrent
-			}
-			ops = append(ops, c16op{k: kAnnounce, h: hh, peers: ps})
-			for _, q := range ps {
-				if q != c16Self && sh.st[[2]int{hh, q}] == 0 {
-					sh.st[[2]int{hh, q}] = 1
-				}
-			}
+			announce(h)
 		}
 	}
 	return ops
@@ -662,6 +787,10 @@ func c16driver(ctx *hlib.Ctx) {
 	// the dial decision: self, blacklisted, expired, duplicate, connected, capacity, complete, unknown
 	emit(c16cfg{max: 3, dur: 10}, c16drain([]c16op{BL(1, 0), A(2, 0), AN(0, c16Self, 1, 2, 3, 3, 4, 5, 6), QB(1, 0), T(10), AN(0, 1), AN(1, 1, 2), AN(2, 0, 1), AN(3, 0, 1)}, 7, 4), true, "seed-announce")
 	emit(c16cfg{max: 3, dur: 10}, c16drain([]c16op{{k: kEvFailedOut, p: 1, h: 0}, AN(0, 1, 2), T(9), AN(0, 1), T(1), AN(0, 1), {k: kEvFailedOut, p: 1, h: 0}, AN(0, 1), {k: kEvComplete, h: 0}, AN(0, 1)}, 3, 2), true, "seed-announce-expiry")
+
+	// incoming handshakes: mutual limit 1 with 1 and 2 connected neighbours, unknown and complete torrents, capacity
+	IN := func(p, h int, nb ...int) c16op { return c16op{k: kEvIncoming, p: p, h: h, nbrs: nb} }
+	emit(c16cfg{max: 3, mutual: 1, dur: 10}, c16drain([]c16op{A(0, 0), A(1, 0), IN(2, 0, 0), DP(2, 0), IN(2, 0, 0, 1), IN(2, 0, 3, 4), IN(2, 0), IN(3, 0), IN(0, 3), IN(1, 2, 0), IN(0, 0)}, 5, 4), true, "seed-incoming-handshake")
 
 	// ---- thorough: every history of length <= 4 over a small alphabet (validates R; not the proof)
 	if ctx.Tier == "thorough" {
